@@ -407,26 +407,29 @@ theorem kkt_maximises_nonneg_cosine (m : ℕ) (A : List (List ℝ)) (data : List
   · exact hθ
 
 /-- **partial**: when the active-set loop ends through its test, every coefficient still
-    fixed at zero has a gradient not above the threshold (dual feasibility).  Missing for the
-    full KKT statement: `x ≥ 0`, `x = 0` off the passive set and zero gradient on it — they
-    rest on the linear-solve contract inside the loop; the harness evaluates the executable
-    predicate `kktOk` on every result of the model and of the library instead. -/
-theorem nnls_exit_is_kkt_partial (tol : ℝ) (G : List (List ℝ)) (c : List ℝ) (fuel : ℕ)
-    (x : List ℝ) (p : List Bool) (w : List ℝ)
-    (hexit : (nnlsOuter tol G c fuel x p w).2.2.2 = true) :
-    ∀ i, i < (nnlsOuter tol G c fuel x p w).2.2.1.length →
-      (nnlsOuter tol G c fuel x p w).2.1.getD i false = false →
-      (nnlsOuter tol G c fuel x p w).2.2.1.getD i 0 ≤ tol :=
-  nnlsOuter_exit tol G c fuel x p w hexit
+    fixed at zero has a gradient not above the threshold in force at the returned point (dual
+    feasibility; the threshold is loop state, re-set by `tolNext` after every iteration, round 5).
+    Missing for the full KKT statement: `x ≥ 0`, `x = 0` off the passive set and zero gradient on
+    it — they rest on the linear-solve contract inside the loop; the harness evaluates the
+    executable predicate `kktOk` on every result of the model and of the library instead. -/
+theorem nnls_exit_is_kkt_partial (tolNext : List ℝ → ℝ) (G : List (List ℝ)) (c : List ℝ) (fuel : ℕ)
+    (tol : ℝ) (x : List ℝ) (p : List Bool) (w : List ℝ) (htol : tol ≤ tolNext x)
+    (hexit : (nnlsOuter tolNext G c fuel tol x p w).2.2.2 = true) :
+    ∀ i, i < (nnlsOuter tolNext G c fuel tol x p w).2.2.1.length →
+      (nnlsOuter tolNext G c fuel tol x p w).2.1.getD i false = false →
+      (nnlsOuter tolNext G c fuel tol x p w).2.2.1.getD i 0 ≤
+        tolNext (nnlsOuter tolNext G c fuel tol x p w).1 :=
+  nnlsOuter_exit tolNext G c fuel tol x p w hexit htol
 
 /-- the full statement the partial theorem falls short of: under the contract of the linear
-    solves (`SolveOK`: every call of `np.linalg.solve` on a passive-set sub-matrix returns a
-    solution) a run that ends through its loop tests returns a point passing the executable
-    KKT predicate with the coded threshold -/
+    solves (`SolveOK`: every inner solve — `np.linalg.lstsq` since round 5 — on a passive-set
+    sub-matrix returns a solution of its equations) a run that ends through its loop tests returns a
+    point passing the executable KKT predicate with the coded threshold at that point,
+    `100·eps·max(max|Aᵀy|, max(|ATA|·x))` -/
 def nnls_exit_is_kkt_full : Prop :=
   ∀ (eps : ℝ) (G : List (List ℝ)) (c : List ℝ), 0 ≤ eps → G.length = c.length →
     (∀ r ∈ G, r.length = c.length) → SolveOK G c → (nnls eps G c).2.2 = true →
-    kktOk (Rsa.Gen.C08.nnlsTol eps (maxAbs c)) G c (nnls eps G c).1 = true
+    kktOk (nnlsTolAt eps G c (nnls eps G c).1) G c (nnls eps G c).1 = true
 
 /-- **closed in round 3**: primal feasibility, zero gradient on the passive set and
     `x = 0` off it are invariants of both loops given the solve contract; with the dual
@@ -461,8 +464,8 @@ example : SolveOK [[2, 1], [1, 2]] [1, -1] ∧
       cases a <;> cases b <;>
         norm_num [solve, elimStep, subMat, gather, whereTrue, matVec, dot, List.range_succ,
           List.getD_cons_zero, List.getD_cons_succ]
-  · norm_num [nnls, nnlsOuter, nnlsInner, argmaxActive, blocking, maxAbs, scatter, vsub,
-      Rsa.Gen.C08.nnlsTol, Rsa.Gen.C08.nnlsIterBound, Rsa.Gen.C08.nnlsStepLen,
+  · norm_num [nnls, nnlsOuter, nnlsInner, argmaxActive, blocking, maxAbs, scatter, vsub, nnlsTolAt,
+      Rsa.Gen.C08.nnlsTol, Rsa.Gen.C08.nnlsTolIter, Rsa.Gen.C08.nnlsIterBound, Rsa.Gen.C08.nnlsStepLen,
       Rsa.Gen.C08.nnlsStepUpdate, solve, elimStep, subMat, gather, whereTrue, matVec, dot,
       List.range_succ, List.getD_cons_zero, List.getD_cons_succ, List.replicate_succ,
       List.set_cons_zero, List.set_cons_succ]
@@ -489,9 +492,7 @@ theorem fit_regress_nn_maximises {m : ℕ} {ip : List ℝ → List ℝ → ℝ} 
     obtain ⟨a, _, rfl⟩ := List.mem_map.mp hr
     simp
   have hk := nnls_exit_kkt 0 _ _ (le_refl _) hG hrows hsolve hexit
-  have htol : Rsa.Gen.C08.nnlsTol (0 : ℝ) (maxAbs (B.map (fun a => ip a y))) = 0 := by
-    simp [Rsa.Gen.C08.nnlsTol]
-  rw [htol] at hk
+  rw [nnlsTolAt_zero] at hk
   obtain ⟨hx, hw, hc⟩ := kktOk_zero_sound _ _ _ hk
   have e : matVec (B.map (fun a => B.map (fun b => ip a b))) θs =
       B.map (fun a => ip a (predict m B θs)) := gram_matVec_ip h B θs hB
@@ -505,6 +506,42 @@ theorem fit_regress_nn_maximises {m : ℕ} {ip : List ℝ → List ℝ → ℝ} 
     exact hw _ (List.mem_map.mpr ⟨b, hb, rfl⟩)
   · exact hc
   · exact hθ
+
+/-- round 5 — **a linearly dependent basis RDM never enters**: for any inner product (plain,
+    centred, whitened), if an RDM is a linear combination `Σ αᵢ Bᵢ` of basis RDMs whose gradient
+    `ip Bᵢ y − ip Bᵢ (Σ xⱼ Bⱼ)` at the current point vanishes wherever `αᵢ ≠ 0` (the fitted, passive
+    ones), then its own gradient is exactly 0 — not above any threshold `tol ≥ 0`, so the outer loop
+    of `_nn_least_squares` (which releases a coefficient only on `gradient > tol`) cannot release
+    it.  In floating point that gradient is the rounding error of `Aᵀy − ATA·x`, a difference of
+    products; the repaired threshold `100·eps·max(max|Aᵀy|, max(|ATA|·x))` is what keeps it out. -/
+theorem nnls_dependent_gradient_zero {m : ℕ} {ip : List ℝ → List ℝ → ℝ} (h : IsIP m ip)
+    (B : List (List ℝ)) (y x α : List ℝ) (hB : ∀ b ∈ B, b.length = m) (hy : y.length = m)
+    (hzero : ∀ a ∈ List.zipWith (fun gi ai => gi * ai)
+      (B.map (fun b => ip b y - ip b (predict m B x))) α, a = 0) :
+    ip (predict m B α) y - ip (predict m B α) (predict m B x) = 0 ∧
+      ∀ tol : ℝ, 0 ≤ tol → ¬ tol < ip (predict m B α) y - ip (predict m B α) (predict m B x) := by
+  have hsub : ∀ (L : List (List ℝ)) (a : List ℝ) (f g : List ℝ → ℝ),
+      dot a (L.map f) - dot a (L.map g) = dot a (L.map (fun b => f b - g b)) := by
+    intro L
+    induction L with
+    | nil => intro a f g; simp
+    | cons b L ih =>
+      intro a f g
+      cases a with
+      | nil => simp
+      | cons t a =>
+        simp only [List.map_cons, dot_cons_cons]
+        rw [← ih a f g]; ring
+  have key : ip (predict m B α) y - ip (predict m B α) (predict m B x) = 0 := by
+    rw [h.predict_left B α y hB hy,
+      h.predict_left B α (predict m B x) hB (predict_length m B x hB), hsub]
+    exact dot_zero_of_products α _ hzero
+  exact ⟨key, fun tol htol hlt => by rw [key] at hlt; exact absurd hlt (not_lt.mpr htol)⟩
+
+/-- non-vacuity: `B₂ = 2·B₀ + B₁`, `x = (1, 1, 0)` fits `y = B₀ + B₁` exactly — the gradients of
+    `B₀`, `B₁` vanish, and so does the one of the dependent `B₂` -/
+example : dot [2, 1, 3] [1, 1, 2] - dot [2, 1, 3] (predict 3 [[1, 0, 1], [0, 1, 1], [2, 1, 3]] [1, 1, (0 : ℝ)]) = 0 := by
+  norm_num [predict, vadd, vscale, dot, List.replicate_succ]
 
 /-- the same for the coded cosine problem: `ATA = gramOf id A`, `Aᵀy = rhsOf id A y`, coded score -/
 theorem fit_regress_nn_maximises_cosine (m : ℕ) (A : List (List ℝ)) (data : List (List ℝ))
@@ -873,6 +910,42 @@ theorem leaf_nnls_bounds (eps a : ℝ) (k : ℕ) :
   constructor
   · simp [Rsa.Gen.C08.nnlsTol]
   · rfl
+
+/-- round 5 — the threshold re-set at the end of every outer iteration is
+    `100·eps·max(max|Aᵀy|, max(|ATA|·x))`: never below the threshold set before the loop, equal to
+    it as long as the products stay below the scale of `Aᵀy` (in particular at `x = 0`), monotone
+    in the size of the products, and 0 in exact arithmetic (`eps = 0`) -/
+theorem leaf_nnls_tol_iter (eps a q q' : ℝ) (heps : 0 ≤ eps) :
+    Rsa.Gen.C08.nnlsTolIter eps a q = 100 * eps * max a q ∧
+    Rsa.Gen.C08.nnlsTol eps a ≤ Rsa.Gen.C08.nnlsTolIter eps a q ∧
+    (q ≤ a → Rsa.Gen.C08.nnlsTolIter eps a q = Rsa.Gen.C08.nnlsTol eps a) ∧
+    (q ≤ q' → Rsa.Gen.C08.nnlsTolIter eps a q ≤ Rsa.Gen.C08.nnlsTolIter eps a q') ∧
+    Rsa.Gen.C08.nnlsTolIter 0 a q = 0 := by
+  have h100 : (0 : ℝ) ≤ ((100 : ℕ) : ℝ) * eps := mul_nonneg (by norm_num) heps
+  refine ⟨by simp [Rsa.Gen.C08.nnlsTolIter], nnlsTol_le_iter heps, ?_, ?_, by simp [Rsa.Gen.C08.nnlsTolIter]⟩
+  · intro h
+    simp [Rsa.Gen.C08.nnlsTolIter, Rsa.Gen.C08.nnlsTol, max_eq_left h]
+  · intro h
+    unfold Rsa.Gen.C08.nnlsTolIter
+    exact mul_le_mul_of_nonneg_left (max_le_max (le_refl a) h) h100
+
+/-- the model's threshold at the start point `x = 0` is the one the code sets before the loop:
+    `|ATA|·0 = 0 ≤ max|Aᵀy|` -/
+theorem nnls_tol_at_start (eps : ℝ) (G : List (List ℝ)) (c : List ℝ) (k : ℕ) :
+    nnlsTolAt eps G c (List.replicate k 0) = Rsa.Gen.C08.nnlsTol eps (maxAbs c) := by
+  have hz : prodLevel G (List.replicate k (0 : ℝ)) = 0 := by
+    unfold prodLevel matVec
+    have : ∀ r : List ℝ, dot r (List.replicate k (0 : ℝ)) = 0 := fun r => by
+      rw [dot_comm', dot_replicate_zero]
+    simp only [this]
+    unfold maxAbs
+    generalize (absMat G) = M
+    induction M with
+    | nil => rfl
+    | cons r M ih => simpa using ih
+  unfold nnlsTolAt
+  rw [hz]
+  simp [Rsa.Gen.C08.nnlsTolIter, Rsa.Gen.C08.nnlsTol, max_eq_left (maxAbs_nonneg c)]
 
 /-- the step `x + α(s − x)` with `α ≤ x/(x − s)` keeps every coefficient non-negative and
     puts the blocking coefficient on zero -/
